@@ -308,7 +308,7 @@ Definition ft_inl := map (fun k => FT k)
    "sint-ft-class-prop"; "enum-ft"; "enum-ft-props"; "uenum-ft"; "senum-ft"; "uenum-ft-class-prop";
    "senum-ft-class-prop"; "real-ft"; "real-ft-class-prop"; "string-ft"; "string-ft-class-prop";
    "array-ft"; "static-array-ft"; "static-array-ft-class-prop"; "struct-ft"; "struct-ft-class-prop";
-   "struct-ft-member"; "struct-ft-members"].
+   "struct-ft-member"; "struct-ft-members"; "dynamic-array-ft"; "dynamic-array-ft-class-prop"].
 
 Ltac int_ft_tac :=
   match goal with j : json |- _ =>
@@ -438,7 +438,14 @@ Proof.
   - use_keys.
 Qed.
 
-(* static array: the element is valid against `ft` again; `length`, WHEN PRESENT, is >= 0 *)
+Lemma ident_key_of_extra (m : list (string * json)) k x :
+  (forall k x, In (k, x) m -> is_extra [] [PIdent] k = true -> False) ->
+  In (k, x) m -> pat_match PIdent k = true.
+Proof.
+  intros E Hin. destruct (pat_match PIdent k) eqn:P; [reflexivity|]. exfalso.
+  apply (E k x Hin). unfold is_extra. cbn -[pat_match]. rewrite P. reflexivity.
+Qed.
+(* static array: the element is valid against `ft` again; `length` is required and >= 0 *)
 Theorem static_array_ft_shape j :
   VK (FT "static-array-ft") j -> static_array_ft_doc false (VK (FT "ft")) j.
 Proof.
@@ -446,7 +453,18 @@ Proof.
   to_obj j. eexists; split; [reflexivity|]. repeat split.
   - req. use_const.
   - req. assumption.
-  - opt. use_ge.
+  - req. use_ge.
+  - use_keys.
+Qed.
+
+(* dynamic array: element required and valid against `ft`, unknown property rejected *)
+Theorem dynamic_array_ft_shape j :
+  VK (FT "dynamic-array-ft") j -> dynamic_array_ft_doc false (VK (FT "ft")) j.
+Proof.
+  unfold VK. intros H. denote_in H (unf_in ft_inl) 14. flat.
+  to_obj j. eexists; split; [reflexivity|]. repeat split.
+  - req. use_const.
+  - req. assumption.
   - use_keys.
 Qed.
 
@@ -469,9 +487,11 @@ Proof.
     inst. flat.
     match goal with L1 : 1 <= List.length me, L2 : List.length me <= 1 |- _ =>
       destruct (singleton_of_length _ L1 L2) as [[name v] ->] end.
-    exists name, v. split; [reflexivity|]. split; [discriminate|]. intros _ Hn.
+    exists name, v. split; [reflexivity|].
+    assert (Hn : pat_match PIdent name = true).
+    { eapply (ident_key_of_extra [(name, v)] name v); [assumption|left; reflexivity]. }
     split; [apply match_ident_spec; exact Hn|].
-    match goal with X : forall k x1, In (k, x1) [(name, v)] -> _ |- _ =>
+    match goal with X : forall k x1, In (k, x1) [(name, v)] -> pat_match _ _ = true -> _ |- _ =>
       specialize (X name v (or_introl eq_refl) Hn) end. flat.
     match goal with T : has_type_in v [TObj] = true |- _ => destruct (has_type_obj _ T) as [mo ->] end.
     inst. flat. exists mo. split; [reflexivity|]. split.
@@ -485,7 +505,7 @@ Qed.
 Definition cls_inl := map (fun k => FT k)
   ["ft"; "ft-base"; "uint-ft-class-prop"; "sint-ft-class-prop"; "uenum-ft-class-prop";
    "senum-ft-class-prop"; "real-ft-class-prop"; "string-ft-class-prop";
-   "static-array-ft-class-prop"; "struct-ft-class-prop"].
+   "static-array-ft-class-prop"; "dynamic-array-ft-class-prop"; "struct-ft-class-prop"].
 
 Fixpoint all_jstr (vs : list json) : bool :=
   match vs with [] => true | JStr _ :: vs => all_jstr vs | _ => false end.
@@ -516,6 +536,7 @@ Theorem ft_dispatch j : VK (FT "ft") j ->
     (In c uenum_names -> VK (FT "uenum-ft") j) /\ (In c senum_names -> VK (FT "senum-ft") j) /\
     (In c real_names -> VK (FT "real-ft") j) /\ (In c string_names -> VK (FT "string-ft") j) /\
     (In c sarray_names -> VK (FT "static-array-ft") j) /\
+    (In c darray_names -> VK (FT "dynamic-array-ft") j) /\
     (In c struct_names -> VK (FT "struct-ft") j).
 Proof.
   unfold VK. intros H. denote_in H (unf_in cls_inl) 14. flat.
@@ -554,9 +575,15 @@ Proof.
   { intros (mo & -> & (y & Hy & Py) & K). exists mo. split; [reflexivity|]. split; [|exact K].
     exists y. split; [exact Hy|]. apply PQ; [|exact Py].
     pose proof (jsize_lookup _ _ _ Hy). lia. }
-  exists name, v. split; [reflexivity|]. split.
-  - intros S. destruct (A S). auto.
-  - intros S N. destruct (B S N). auto.
+  exists name, v. split; [reflexivity|]. split; [exact A|]. exact (MO B).
+Qed.
+Lemma dynamic_array_mono strict (P Q : json -> Prop) j :
+  (forall x, jsize x < jsize j -> P x -> Q x) ->
+  dynamic_array_ft_doc strict P j -> dynamic_array_ft_doc strict Q j.
+Proof.
+  intros PQ (m & -> & C & (x & Hx & Px) & K). exists m. split; [reflexivity|].
+  split; [exact C|]. split; [|exact K].
+  exists x. split; [exact Hx|]. apply PQ; [|exact Px]. eapply jsize_lookup; eauto.
 Qed.
 Lemma struct_mono strict (P Q : json -> Prop) j :
   (forall x, jsize x < jsize j -> P x -> Q x) ->
@@ -573,7 +600,7 @@ Theorem ft_tree : forall j, VK (FT "ft") j -> ft_doc false j.
 Proof.
   intros j. remember (jsize j) as n eqn:En. revert j En.
   induction n as [n IH] using lt_wf_ind. intros j -> H.
-  destruct (ft_dispatch j H) as (m & c & -> & Hc & Hin & Du & Ds & Due & Dse & Dr & Dst & Dsa & Dstruct).
+  destruct (ft_dispatch j H) as (m & c & -> & Hc & Hin & Du & Ds & Due & Dse & Dr & Dst & Dsa & Dda & Dstruct).
   assert (REC : forall x, jsize x < jsize (JObj m) -> VK (FT "ft") x -> ft_doc false x).
   { intros x Sx Vx. exact (IH (jsize x) Sx x eq_refl Vx). }
   unfold class_names in Hin. repeat (apply in_app_or in Hin; destruct Hin as [Hin|Hin]).
@@ -584,8 +611,7 @@ Proof.
   - apply FtReal, real_ft_shape; auto.
   - apply FtString, string_ft_shape; auto.
   - apply FtSArray. eapply static_array_mono; [exact REC|]. apply static_array_ft_shape; auto.
-  - apply FtDArray. exists m. split; [reflexivity|]. split; [|discriminate].
-    exists (JStr c). split; [exact Hc|]. exists c. auto.
+  - apply FtDArray. eapply dynamic_array_mono; [exact REC|]. apply dynamic_array_ft_shape; auto.
   - apply FtStruct. eapply struct_mono; [exact REC|]. apply struct_ft_shape; auto.
 Qed.
 
@@ -669,9 +695,11 @@ Proof.
   inst. flat.
   match goal with L1 : 1 <= List.length me, L2 : List.length me <= 1 |- _ =>
     destruct (singleton_of_length _ L1 L2) as [[name v] ->] end.
-  exists name, v. split; [reflexivity|]. split; [discriminate|]. intros _ Hn.
+  exists name, v. split; [reflexivity|].
+  assert (Hn : pat_match PIdent name = true).
+  { eapply (ident_key_of_extra [(name, v)] name v); [assumption|left; reflexivity]. }
   split; [apply match_ident_spec; exact Hn|].
-  match goal with X : forall k x1, In (k, x1) [(name, v)] -> _ |- _ =>
+  match goal with X : forall k x1, In (k, x1) [(name, v)] -> pat_match _ _ = true -> _ |- _ =>
     specialize (X name v (or_introl eq_refl) Hn) end. flat.
   match goal with T : has_type_in v [TObj] = true |- _ => destruct (has_type_obj _ T) as [mo ->] end.
   inst. flat. exists mo. split; [reflexivity|]. split.
@@ -679,13 +707,6 @@ Proof.
   - use_keys.
 Qed.
 
-Lemma ident_key_of_extra (m : list (string * json)) k x :
-  (forall k x, In (k, x) m -> is_extra [] [PIdent] k = true -> False) ->
-  In (k, x) m -> pat_match PIdent k = true.
-Proof.
-  intros E Hin. destruct (pat_match PIdent k) eqn:P; [reflexivity|]. exfalso.
-  apply (E k x Hin). unfold is_extra. cbn -[pat_match]. rewrite P. reflexivity.
-Qed.
 Lemma named_map_of (P : json -> Prop) key x nonempty :
   has_type_in x [TObj] = true ->
   (forall m0, x = JObj m0 ->
@@ -816,6 +837,7 @@ Proof.
   to_obj j. eexists; split; [reflexivity|]. repeat split.
   - req. vk trace_type_shape.
   - opt. vk opt_env_shape.
+  - use_keys.
 Qed.
 
 Ltac to_objx x :=
